@@ -1201,6 +1201,30 @@ func (c *checker) raceCheck() (map[string]any, int, int) {
 		allProbes[fmt.Sprintf("transcripts_compared_procs1_vs_procs%d", p.procs)] = cmp
 	}
 	c.workers = savedWorkers
+	// thorough tier: the baton also changes hands at statement points inside operations
+	pointsInfo := map[string]any{"enabled": false}
+	if c.tier == "thorough" || os.Getenv("VERIF_POINTS_QUICK") != "" {
+		pbin, ok, info := c.buildInstrumented("sim-race-points", []string{"-race"})
+		if !ok {
+			pointsInfo["fallback"] = "statement points unavailable, operation-boundary switches only: " + info
+			c.logf("statement points unavailable: %s", info)
+		} else {
+			env := []string{"VERIF_PROCS=1", "VERIF_POINTS=1", "GORACE=halt_on_error=0 log_path=" + filepath.Join(c.workDir, "race-points")}
+			pb := c.runBatch(pbin, "main", max(40, N/4), env)
+			for i := range pb.records {
+				if v := pb.records[i].Violation; v != nil && v.Class == "harness-race" {
+					c.broken = true
+					c.notes = append(c.notes, fmt.Sprintf("run %d (statement points): race report without a library frame: %s", pb.records[i].Run, v.Detail))
+					pb.records[i].Violation = nil
+				}
+			}
+			c.handleViolations(pbin, pb, env)
+			total += pb.runs
+			addMap(allEvents, pb.events)
+			addMap(allProbes, pb.probes)
+			pointsInfo = map[string]any{"enabled": true, "instrumenter": info, "runs": pb.runs, "yields_inside_operations": pb.events["point_yield"], "runs_with_points": pb.probes["point_runs"]}
+		}
+	}
 	distinct := map[uint64]bool{}
 	nontrivial := 0
 	for _, r := range first.records {
@@ -1228,7 +1252,7 @@ func (c *checker) raceCheck() (map[string]any, int, int) {
 	cov["steps_skipped_outside_domain"] = allSkipped
 	cov["tree_instantiations"] = allKinds
 	cov["race_build"] = true
-	cov["statement_points"] = false
+	cov["statement_points"] = pointsInfo
 	cov["real_vs_stub"] = map[string]any{
 		"real": []string{"all go-art code incl. amd64 assembly", "sync.Pool", "goroutines (real, one runnable at a time)", "ThreadSanitizer runtime"},
 		"stub": []string{},
